@@ -5,7 +5,7 @@
 
      Expect(kind)   ExpectInput… / ExpectSendMessage… (6 kinds, see MocksOracle)
      Send(m)        a message written to Input() resp. SendMessage(m)
-     Batch(n)       SyncProducer.SendMessages with n messages
+     Batch(n, b)    SyncProducer.SendMessages with n messages (b: the one whose partitioning fails, 0 = none)
      SetParts(t, n) TopicConfig.SetPartitions(map[string]int32{t: n}) on the mock, callable any number of times
                     (topics without an override have the default count: 32 unless SetDefaultPartitions)
      Close          Close()
@@ -20,16 +20,16 @@
 EXTENDS MocksOracle, Json
 
 CONSTANTS Modes, PKs, NPA, NPD, RetS, Quirks, Kinds, MaxExp, MaxSend, Interleave,
-          MsgTopics, MsgKeys, MsgParts, BatchSizes, SetTopics, SetCounts, MaxSet, FullScript, EmitCases
+          MsgTopics, MsgKeys, MsgParts, BatchSizes, SetTopics, SetCounts, MaxSet, FullScript, MsgBad, BatchBad, EmitCases
 
 VARIABLES cf, ps, hist
 vars == <<cf, ps, hist>>
 
 NoOuts == <<>>
 H(op, kind, m, n, p, took, ekind, outs, rep, parts) ==
-  [op |-> op, kind |-> kind, mid |-> m.mid, topic |-> m.topic, key |-> m.key, mpart |-> m.mpart,
+  [op |-> op, kind |-> kind, mid |-> m.mid, topic |-> m.topic, key |-> m.key, mpart |-> m.mpart, bad |-> m.bad,
    n |-> n, p |-> p, took |-> took, ekind |-> ekind, outs |-> outs, rep |-> rep, parts |-> parts]
-NoMsg == [mid |-> 0, topic |-> "-", key |-> NoKey, mpart |-> 0]
+NoMsg == [mid |-> 0, topic |-> "-", key |-> NoKey, mpart |-> 0, bad |-> 0]   \* bad: 0 / 1; batch: position of the bad message
 
 NSent == Count(hist, LAMBDA h : h.op \in {"send", "batch"})
 NMsgs == SumSeq([i \in DOMAIN hist |-> IF hist[i].op = "send" THEN 1 ELSE IF hist[i].op = "batch" THEN hist[i].n ELSE 0])
@@ -43,12 +43,12 @@ Init ==
 
 \* messages a test would submit under the configured partitioner
 MsgSpace ==
-  {[mid |-> NMsgs + 1, topic |-> t, key |-> k, mpart |-> q] :
-     t \in MsgTopics,
+  {[mid |-> NMsgs + 1, topic |-> t, key |-> k, mpart |-> q, bad |-> b] :
+     b \in MsgBad, t \in MsgTopics,
      k \in (IF cf.pk = "hash" THEN MsgKeys ELSE {NoKey}),
      q \in (IF cf.pk = "manual" THEN MsgParts ELSE {0})}
-BatchMsg(i) == [mid |-> NMsgs + i, topic |-> "ta", key |-> IF cf.pk = "hash" THEN "key2" ELSE NoKey,
-                mpart |-> IF cf.pk = "manual" THEN 1 ELSE 0]
+BatchMsg(i, b) == [mid |-> NMsgs + i, topic |-> "ta", key |-> IF cf.pk = "hash" THEN "key2" ELSE NoKey,
+                   mpart |-> IF cf.pk = "manual" THEN 1 ELSE 0, bad |-> IF i = b THEN 1 ELSE 0]
 
 Expect(k) ==
   /\ ps.nexp < MaxExp
@@ -74,13 +74,15 @@ Send(m) ==
        /\ hist' = Append(hist, H("send", "-", m, 1, p, r.took, r.ekind, r.outs, r.rep, <<>>))
   /\ UNCHANGED cf
 
-Batch(n) ==
+\* b: position of the message whose partitioning fails (0 = none)
+Batch(n, b) ==
   /\ cf.mode = "sync"
   /\ NMsgs + n <= MaxSend
-  /\ LET ms == [i \in 1..n |-> BatchMsg(i)]
+  /\ b <= n
+  /\ LET ms == [i \in 1..n |-> BatchMsg(i, b)]
          r == PBatch(cf, ps, ms, [i \in 1..n |-> -1]) IN
      /\ ps' = r.ps
-     /\ hist' = Append(hist, H("batch", "-", NoMsg, n, -1, r.took, r.err,
+     /\ hist' = Append(hist, H("batch", "-", [NoMsg EXCEPT !.bad = b], n, -1, r.took, r.err,
                                [i \in DOMAIN r.offs |-> Out(IF r.offs[i] > 0 THEN "succ" ELSE "err", "-", r.offs[i], r.parts[i])],
                                r.rep, r.parts))
   /\ UNCHANGED cf
@@ -95,7 +97,7 @@ Next ==
   /\ ~ps.closed
   /\ \/ \E k \in Kinds : Expect(k)
      \/ \E m \in MsgSpace : Send(m)
-     \/ \E n \in BatchSizes : Batch(n)
+     \/ \E n \in BatchSizes, b \in BatchBad : Batch(n, b)
      \/ \E t \in SetTopics, n \in SetCounts : SetParts(t, n)
      \/ Close
 Spec == Init /\ [][Next]_vars
@@ -126,7 +128,8 @@ OutcomeOfExpectation ==
         outs == hist[i].outs IN
     /\ hist[i].ekind = kind
     /\ \A o \in ToSet(outs) :
-         IF CheckerFails(kind) THEN o.kind = "err" /\ o.err = ErrId("c", k)
+         IF hist[i].bad = 1 THEN o.kind = "err" /\ o.err = ErrId("p", hist[i].mid)   \* partitioning failed
+         ELSE IF CheckerFails(kind) THEN o.kind = "err" /\ o.err = ErrId("c", k)
          ELSE IF Succeeds(kind) THEN o.kind = "succ"
          ELSE o.kind = "err" /\ o.err = ErrId("e", k)
 
@@ -134,7 +137,7 @@ OutcomeOfExpectation ==
 \* an async message without expectation has none - it is reported instead)
 ExactlyOneOutcome ==
   \A i \in Sends :
-    LET silent == cf.mode = "async" /\ (hist[i].took = 0 \/ (~cf.rets /\ hist[i].ekind \in {"S", "CS"}))
+    LET silent == cf.mode = "async" /\ (hist[i].took = 0 \/ (~cf.rets /\ hist[i].ekind \in {"S", "CS"} /\ hist[i].bad = 0))
     IN Len(hist[i].outs) = IF silent THEN 0 ELSE 1
 
 UnexpectedInputNeverSucceeds ==
@@ -158,10 +161,11 @@ ProcParts(t) ==     \* <<key, mpart, chosen partition, history index>> of the pr
   LET RECURSIVE F(_)
       F(i) == IF i = 0 THEN <<>>
               ELSE F(i - 1) \o
-                   (IF hist[i].op = "send" /\ hist[i].took # 0 /\ hist[i].topic = t
+                   (IF hist[i].op = "send" /\ hist[i].took # 0 /\ hist[i].bad = 0 /\ hist[i].topic = t
                       THEN <<<<hist[i].key, hist[i].mpart, hist[i].p, i>>>>
                     ELSE IF hist[i].op = "batch" /\ t = "ta"
-                      THEN [k \in DOMAIN hist[i].parts |-> <<BatchMsg(1).key, BatchMsg(1).mpart, hist[i].parts[k], i>>]
+                      THEN SelectSeq([k \in DOMAIN hist[i].parts |-> <<BatchMsg(1, 0).key, BatchMsg(1, 0).mpart, hist[i].parts[k], i>>],
+                                     LAMBDA x : x[3] # NoPart)
                     ELSE <<>>)
   IN F(Len(hist))
 CountAt(t, i) ==
@@ -181,12 +185,15 @@ OutcomeCarriesPartition ==
   \A i \in Sends : \A o \in ToSet(hist[i].outs) :
     o.kind = "succ" => o.part = hist[i].p          \* violated by the pinned sync mock (returns 0)
 
-\* a batch stops at the first of its expectations that has a failing checker or a scripted failure
+\* a batch stops at the first message whose partitioning fails or whose expectation has a failing
+\* checker or a scripted failure
+BatchStop(i) ==     \* 0 = runs to the end
+  LET c == ConsumedBefore(i)
+      bad == {j \in 1..hist[i].n : j = hist[i].bad \/ KindOfExp(c + j) \notin {"S", "CS"}}
+  IN IF hist[i].took = 0 \/ bad = {} THEN 0 ELSE CHOOSE j \in bad : \A q \in bad : j <= q
+BatchStopsAtPartitioner(i) == BatchStop(i) # 0 /\ BatchStop(i) = hist[i].bad
 BatchStopsAtChecker(i) ==
-  /\ hist[i].took # 0
-  /\ LET c == ConsumedBefore(i)
-         bad == {j \in 1..hist[i].n : KindOfExp(c + j) \notin {"S", "CS"}}
-     IN bad # {} /\ CheckerFails(KindOfExp(c + CHOOSE j \in bad : \A q \in bad : j <= q))
+  BatchStop(i) # 0 /\ BatchStop(i) # hist[i].bad /\ CheckerFails(KindOfExp(ConsumedBefore(i) + BatchStop(i)))
 
 \* every deviation is reported, and nothing else is
 AllRep ==
@@ -199,10 +206,12 @@ ReporterExact ==
   LET b == BagOf(AllRep)
       cnt(x) == IF x \in DOMAIN b THEN b[x] ELSE 0
   IN
-  /\ DOMAIN b \subseteq {"noexp", "insufficient", "checker", "leftover"}
+  /\ DOMAIN b \subseteq {"noexp", "insufficient", "checker", "partitioner", "leftover"}
+  /\ cnt("partitioner") = Cardinality({i \in Sends : hist[i].took # 0 /\ hist[i].bad = 1})
+                          + Cardinality({i \in Batches : BatchStopsAtPartitioner(i)})
   /\ cnt("noexp") = Cardinality({i \in Sends : hist[i].took = 0})
   /\ cnt("insufficient") = Cardinality({i \in Batches : hist[i].took = 0})
-  /\ cnt("checker") = Cardinality({i \in Sends : hist[i].took # 0 /\ CheckerFails(KindOfExp(hist[i].took))})
+  /\ cnt("checker") = Cardinality({i \in Sends : hist[i].took # 0 /\ hist[i].bad = 0 /\ CheckerFails(KindOfExp(hist[i].took))})
                       + Cardinality({i \in Batches : BatchStopsAtChecker(i)})
   /\ cnt("leftover") = IF ps.closed /\ NTotalExp > NConsumed THEN 1 ELSE 0
 
@@ -218,7 +227,7 @@ TypeOK ==
 
 -----------------------------------------------------------------------------
 \* role 2: every closed state is one case
-OpJson(h) == [op |-> h.op, kind |-> h.kind, topic |-> h.topic, key |-> h.key, mpart |-> h.mpart, n |-> h.n]
+OpJson(h) == [op |-> h.op, kind |-> h.kind, topic |-> h.topic, key |-> h.key, mpart |-> h.mpart, n |-> h.n, bad |-> h.bad]
 Emit ==
   (EmitCases /\ ps.closed) =>
     PrintT(<<"CASE", ToJson([mode |-> cf.mode, pk |-> cf.pk, npa |-> cf.np.ta, npd |-> cf.np.tb, rets |-> cf.rets,
